@@ -784,6 +784,12 @@ update_load_av ()
   if (current_time == last_time)
     return;
   duration = current_time - last_time;
+  if (duration < 0)
+    {
+      /* the clock stepped back: restart the interval instead of indexing consts[] with a negative number */
+      last_time = current_time;
+      return;
+    }
   if (duration < NUM_CONSTS)
     c = consts[duration];
   else
@@ -807,6 +813,12 @@ update_compile_av (int lines)
   if (current_time == last_time)
     return;
   duration = current_time - last_time;
+  if (duration < 0)
+    {
+      /* the clock stepped back: restart the interval instead of indexing consts[] with a negative number */
+      last_time = current_time;
+      return;
+    }
   if (duration < NUM_CONSTS)
     c = consts[duration];
   else
